@@ -264,21 +264,33 @@ Definition is_const (c : option cval) : bool := match c with Some _ => true | No
 
 Definition max_shift : Z := 1074.
 
+(* the count of a shift: an integer type, or an untyped constant representable
+   as uint; a constant count is not negative *)
+Definition shift_count_ok (vb : vty) (cb : option cval) : bool :=
+  match vb, cb with
+  | VT t, None => bclass_eqb (class_of (under t)) KInt
+  | VT t, Some (CNum q) =>
+    bclass_eqb (class_of (under t)) KInt && match qint q with Some z => Z.leb 0 z | None => false end
+  | VU k, Some (CNum q) => is_numeric (kind_class k) && const_fits q BUint
+  | _, _ => false
+  end.
+
+(* the type of a constant shift: that of the left operand; an untyped constant
+   that is not of integer kind becomes an untyped integer constant *)
+Definition shift_result_vty (va : vty) : vty :=
+  match va with
+  | VU k => if bclass_eqb (kind_class k) KInt then va else VU UInt
+  | _ => va
+  end.
+
+Definition shift_value (o : binop) (x s : Z) : Z :=
+  match o with OShl => Z.shiftl x s | _ => Z.shiftr x s end.
+
 (* x << y, x >> y *)
 Definition tc_shift (o : binop) (a b : etype) : option etype :=
   match a, b with
   | EVal va ca, EVal vb cb =>
-    (* the count: an integer type, or an untyped constant representable as uint;
-       a constant count is not negative *)
-    let count_ok :=
-      match vb, cb with
-      | VT t, None => bclass_eqb (class_of (under t)) KInt
-      | VT t, Some (CNum q) =>
-        bclass_eqb (class_of (under t)) KInt && match qint q with Some z => Z.leb 0 z | None => false end
-      | VU k, Some (CNum q) => is_numeric (kind_class k) && const_fits q BUint
-      | _, _ => false
-      end in
-    if negb count_ok then None else
+    if negb (shift_count_ok vb cb) then None else
     match va, ca with
     | VT t, None =>
       if bclass_eqb (class_of (under t)) KInt then Some (EVal (VT t) None) else None
@@ -295,11 +307,7 @@ Definition tc_shift (o : binop) (a b : etype) : option etype :=
           match qint qs with
           | Some s =>
             if Z.leb s max_shift then
-              let r := match o with OShl => Z.shiftl x s | _ => Z.shiftr x s end in
-              let v := match va with
-                       | VU k => if bclass_eqb (kind_class k) KInt then va else VU UInt
-                       | _ => va end in
-              mk_const v (CNum (qz r))
+              mk_const (shift_result_vty va) (CNum (qz (shift_value o x s)))
             else None
           | None => None
           end
@@ -319,6 +327,12 @@ Definition tc_shift (o : binop) (a b : etype) : option etype :=
   | _, _ => None
   end.
 
+(* division or remainder by a constant zero: an error when the dividend is a
+   constant or of integer type *)
+Definition div_zero_b (o : binop) (k : bclass) (c1 c2 : option cval) : bool :=
+  (match o with ODiv | ORem => true | _ => false end)
+  && is_zero_const c2 && (is_const c1 || bclass_eqb k KInt).
+
 Definition tc_binary (o : binop) (a b : etype) : option etype :=
   if is_shift o then tc_shift o a b else
   match match_types a b with
@@ -329,8 +343,7 @@ Definition tc_binary (o : binop) (a b : etype) : option etype :=
       if is_order o && bclass_eqb k KBool then None
       else Some (EVal (VU UBool) (if both_const c1 c2 then Some COther else None))
     else if negb (op_defined o k) then None
-    else if (match o with ODiv | ORem => true | _ => false end)
-            && is_zero_const c2 && (is_const c1 || bclass_eqb k KInt) then None
+    else if div_zero_b o k c1 c2 then None
     else
       match c1, c2 with
       | Some (CNum q1), Some (CNum q2) =>
@@ -348,16 +361,25 @@ Definition int_width (b : basic) : Z :=
   | BUint8 => 8 | BUint16 => 16 | BUint32 => 32 | _ => 64
   end.
 
+(* the unary operator o is defined on operands of class k *)
+Definition un_defined (o : unop) (k : bclass) : bool :=
+  match o with
+  | UPlus | UNeg => is_numeric k
+  | UNot => bclass_eqb k KBool
+  | UCompl => bclass_eqb k KInt
+  end.
+
+(* ^x for a constant x: complement within the width of an unsigned type, -x-1 otherwise *)
+Definition compl_value (v : vty) (x : Z) : Z :=
+  match v with
+  | VT t => if is_unsigned (under t) then Z.lxor x (2 ^ int_width (under t) - 1) else (- x - 1)
+  | VU _ => (- x - 1)
+  end%Z.
+
 Definition tc_unary (o : unop) (a : etype) : option etype :=
   match a with
   | EVal v c =>
-    let k := vty_class v in
-    let defined := match o with
-                   | UPlus | UNeg => is_numeric k
-                   | UNot => bclass_eqb k KBool
-                   | UCompl => bclass_eqb k KInt
-                   end in
-    if negb defined then None else
+    if negb (un_defined o (vty_class v)) then None else
     match c with
     | None => Some (EVal v None)
     | Some COther => Some (EVal v (Some COther))
@@ -367,14 +389,7 @@ Definition tc_unary (o : unop) (a : etype) : option etype :=
       | UNeg => mk_const v (CNum (Qred (Qopp q)))
       | UCompl =>
         match qint q with
-        | Some x =>
-          let r := match v with
-                   | VT t => if is_unsigned (under t)
-                             then Z.lxor x (2 ^ int_width (under t) - 1)
-                             else (- x - 1)
-                   | VU _ => (- x - 1)
-                   end%Z in
-          mk_const v (CNum (qz r))
+        | Some x => mk_const v (CNum (qz (compl_value v x)))
         | None => None
         end
       | UNot => None
